@@ -473,27 +473,36 @@ func c03Run(r *core.Run) {
 	r.Rule = "engine E: every handler program = stack shape (app middleware / nested group handlers / route handlers / optional action) x one behaviour per position (action string over {Next, write, cancel} + terminal {return nothing, return \"\", return a string, panic}); each program is one request on a real Flame; the recorded event trace must be accepted by the trace automaton (chain order, at most once, none skipped, onion nesting, automatic advance iff nothing written and not cancelled, Next() completeness) and the response must equal what the trace implies; non-trivial = program with at least one Next() and at least one write/cancel/panic/returned string"
 	r.Assumptions = []string{"an explicit Next() after a write or after a cancel may start the next handler or not (the statement leaves it open); everything else is exact", "no Recovery in the stack (C15 covers it)"}
 	type plan struct {
-		maxN  int
-		behs  []c03Beh
-		label string
+		minN, maxN int
+		behs       []c03Beh
+		label      string
+		which      int // 0: all shapes, 1: base shapes only, 2: variant shapes only (late / swapped / flat / AutoHead / informational)
 	}
 	var plans []plan
+	red := []c03Beh{}
+	for _, a := range []string{"", "N", "W", "NN", "C", "T", "TC"} {
+		for _, t := range []int{0, 2, 3} {
+			red = append(red, c03Beh{a, t})
+		}
+	}
 	if r.Thorough() {
-		r.SetBudget(12 * time.Minute)
-		plans = []plan{{3, c03Behaviours(3, "T", "TC", "TN", "NT", "TCN", "TNC", "CT", "TW", "TT", "TTC"), "<=3 positions, action strings <=3 over {N,W,C} plus context-installing ones"},
-			{4, c03Behaviours(2, "T", "TC", "TN", "TCN"), "4 positions, action strings <=2 plus context-installing ones"}, {5, c03Behaviours(1, "T", "TC"), "5 positions, action strings <=1 plus T, TC"}}
+		r.SetBudget(18 * time.Minute)
+		rich := c03Behaviours(3, "T", "TC", "TN", "NT", "TCN", "TNC", "CT", "TW", "TT", "TTC")
+		mid := c03Behaviours(2, "T", "TC", "TN", "NT", "TCN", "TNC", "CT", "TW", "TT", "TTC")
+		plans = []plan{
+			{1, 3, mid, "<=3 positions, every shape and variant, action strings <=2 over {N,W,C} plus ten context-installing ones", 0},
+			{1, 2, rich, "<=2 positions, every shape and variant, action strings <=3", 0},
+			{3, 3, rich, "3 positions, base shapes, action strings <=3 plus context-installing ones", 1},
+			{4, 4, c03Behaviours(2, "T", "TC"), "4 positions, base shapes, action strings <=2 plus T, TC", 1},
+			{4, 4, red, "4 positions, variant shapes, actions {'',N,W,NN,C,T,TC} x {nothing,string,panic}", 2},
+			{5, 5, c03Behaviours(1, "T", "TC"), "5 positions, base shapes, action strings <=1 plus T, TC", 1},
+		}
 	} else {
 		r.SetBudget(70 * time.Second)
-		red := []c03Beh{}
-		for _, a := range []string{"", "N", "W", "NN", "C", "T", "TC"} {
-			for _, t := range []int{0, 2, 3} {
-				red = append(red, c03Beh{a, t})
-			}
-		}
-		plans = []plan{{3, c03Behaviours(2, "T", "TC", "TN", "TCN"), "<=3 positions, action strings <=2 over {N,W,C} plus T, TC, TN, TCN"}, {4, red, "4 positions, actions {'',N,W,NN,C,T,TC} x {nothing,string,panic}"}}
+		plans = []plan{{1, 3, c03Behaviours(2, "T", "TC", "TN", "TCN"), "<=3 positions, action strings <=2 over {N,W,C} plus T, TC, TN, TCN", 0}, {4, 4, red, "4 positions, actions {'',N,W,NN,C,T,TC} x {nothing,string,panic}", 0}}
 	}
 	var labels []string
-	for pi, pl := range plans {
+	for _, pl := range plans {
 		labels = append(labels, pl.label)
 		shapes := c03Shapes(pl.maxN, r.Thorough())
 		nb := len(pl.behs)
@@ -504,8 +513,9 @@ func c03Run(r *core.Run) {
 		}
 		var jobs []job
 		for _, s := range shapes {
-			if pi > 0 && s.n() < pl.maxN {
-				continue // shorter stacks were covered by the previous plan with a richer behaviour set
+			base := !(s.Flat || s.Late || s.Swap || s.Head || s.Info)
+			if s.n() < pl.minN || (pl.which == 1 && !base) || (pl.which == 2 && base) {
+				continue
 			}
 			for b := 0; b < nb; b++ {
 				jobs = append(jobs, job{s, b})
